@@ -13,7 +13,7 @@ from layout import relayout, mutate, tokens
 
 S = Sym
 PROPERTY = 'C01'
-PROPS_MODULES = ['C01', 'C01b', 'C01c', 'C01d', 'C06d', 'C06g', 'C18b', 'C18c']
+PROPS_MODULES = ['C01', 'C01b', 'C01c', 'C01d', 'C06d', 'C06g', 'C18b', 'C18c', 'C01e']
 ASSUMPTIONS = ['float literal values are compared as the decimal their token denotes (12 significant digits)',
                'for mutated texts with several defects the error *class* may differ between Lark (first defect in LALR reduce order) and the '
                'model (syntax first); accept/reject must agree']
@@ -166,6 +166,15 @@ def run(ctx):
         out = outcome(lambda: parser.parse(t), dumper)
         muts.append(({'entry': entry, 'text': t, 'mutated': True}, out, dumps([S('parse'), S(entry), t]), None, 'mutated'))
     cases += muts
+    # token soups over the reserved words: where a reserved word is a name and where it is not (the contextual lexer), accept / reject side
+    from soup import soups
+    nsoup = 0
+    for entry, t in soups(rng, 3000 if ctx.quick else 40000):
+        parser = {'expression': ep, 'predicate': prp, 'property': pp}[entry]
+        dumper = {'expression': dump_expr, 'predicate': dump_pred, 'property': dump_property}[entry]
+        out = outcome(lambda: parser.parse(t), dumper)
+        nsoup += out[0] == 'ok'
+        cases.append(({'entry': entry, 'text': t, 'family': 'reserved-word-soup'}, out, dumps([S('parse'), S(entry), t]), None, 'mutated'))
 
     disagreements, violations = [], []
     distinct = set()
@@ -206,7 +215,7 @@ def run(ctx):
         'samples': samples,
         'violations': violations,
         'disagreements': disagreements,
-        'coverage_extra': dict(stats, generator_rejects=rejects),
+        'coverage_extra': dict(stats, generator_rejects=rejects, reserved_word_soups_accepted=nsoup),
     }
 
 
